@@ -239,8 +239,25 @@ func init() {
 				}
 			}
 			for _, l := range r.CertificateLints().Lints() {
-				if t := r.ByName(l.Name); t == nil || t.Name != l.Name || t.Source != l.Source {
+				t := r.ByName(l.Name)
+				if t == nil || t.Name != l.Name || t.Source != l.Source {
 					out.Violate("C12|registry-byname:"+l.Name, what+": Registry.ByName does not return the certificate lint of that name", l.Name, nil, nil)
+					continue
+				}
+				// every piece of metadata, the two dates included
+				if t.Description != l.Description || t.Citation != l.Citation || !t.EffectiveDate.Equal(l.EffectiveDate) || !t.IneffectiveDate.Equal(l.IneffectiveDate) {
+					out.Violate("C12|registry-byname-metadata:"+l.Name, fmt.Sprintf("%s: Registry.ByName(%s) carries other metadata than the per-kind lookup (effective %s / %s, ineffective %s / %s)", what, l.Name,
+						t.EffectiveDate.Format("2006-01-02"), l.EffectiveDate.Format("2006-01-02"), t.IneffectiveDate.Format("2006-01-02"), l.IneffectiveDate.Format("2006-01-02")), l.Name, nil, nil)
+				}
+			}
+			for _, sc := range r.Sources() {
+				for _, t := range r.BySource(sc) {
+					if t == nil {
+						continue
+					}
+					if l := r.CertificateLints().ByName(t.Name); l != nil && (!t.EffectiveDate.Equal(l.EffectiveDate) || !t.IneffectiveDate.Equal(l.IneffectiveDate) || t.Description != l.Description || t.Citation != l.Citation) {
+						out.Violate("C12|registry-bysource-metadata:"+t.Name, fmt.Sprintf("%s: Registry.BySource(%s) lists %s with other metadata than the per-kind lookup", what, sc, t.Name), t.Name, nil, nil)
+					}
 				}
 			}
 			if r.ByName("e_no_such_lint") != nil || r.CertificateLints().ByName("e_no_such_lint") != nil {
